@@ -14,7 +14,7 @@ demo = open(os.path.join(out, 'demo.cpp')).read()
 m = re.search(r'((?:g\+\+|clang\+\+)[^\n()]*?-o\s+\S+)', demo)
 cmd = m.group(1) if m else 'g++ -std=gnu++17 -O2 -march=haswell -I WT/include demo.cpp -o demo'
 cmd = re.sub(r'\S*demo\.cpp', os.path.join(out, 'demo.cpp').replace('/tmp/seed', '/tmp/SEED'), cmd)
-cmd = re.sub(r'/tmp/seed[23]?-[A-Za-z0-9_-]+', wt, cmd).replace('/tmp/SEED', '/tmp/seed')
+cmd = re.sub(r'/tmp/seed[0-9]*-[A-Za-z0-9_-]+', wt, cmd).replace('/tmp/SEED', '/tmp/seed')
 cmd = re.sub(r'-o\s+\S+', '-o %s/demo.bin' % wt, cmd)
 if '-I' not in cmd: cmd += ' -I %s/include' % wt
 cmd = re.sub(r'-I\s*(?!/)(\S+)', lambda mm: '-I %s/%s' % (wt, mm.group(1)), cmd)
